@@ -309,6 +309,11 @@ class Outcome:
         return f'[{g}] {self.kind} {self.value!r}'
 
 
+def mk_ite(test: Term, a: Term, b: Term) -> Term:
+    """a conditional whose branches agree is that value"""
+    return a if a == b else Ite(test, a, b)
+
+
 TRUE = Const(True)
 FALSE = Const(False)
 NONE = Const(None)
@@ -801,8 +806,14 @@ class Evaluator:
                     st.trace = st.trace + (e,)
         for o in outs:
             for a in o.asserts:
-                if a not in st.asserts:
-                    st.asserts = st.asserts + (a,)
+                if all(a in o2.asserts for o2 in outs):
+                    cond = a
+                else:
+                    # asserted on some paths of the callee only: it holds under that path's guards
+                    g = self._conj(o.guards)
+                    cond = a if g is None else Op('or', (Op('not', (g,)), a))
+                if cond not in st.asserts:
+                    st.asserts = st.asserts + (cond,)
         return result
 
     @staticmethod
@@ -1314,6 +1325,18 @@ class Evaluator:
                 return Const(r if op == 'in' else not r)
         return Op(op, (a, b))
 
+    def refold(self, t: Term) -> Term:
+        """re-apply constant folding after a substitution"""
+        if isinstance(t, Op) and len(t.args) == 2 and t.op in ('is', 'is not', '==', '!=', '<', '<=', '>', '>=', 'in', 'not in'):
+            return self.compare(t.op, self.refold(t.args[0]), self.refold(t.args[1]))
+        if isinstance(t, Op) and t.op in ('and', 'or'):
+            return self.boolop(t.op, [self.refold(a) for a in t.args])
+        if isinstance(t, Op) and t.op == 'not' and len(t.args) == 1:
+            a = self.refold(t.args[0])
+            tv = self.truth(a) if isinstance(a, Const) else None
+            return Const(not tv) if tv is not None else Op('not', (a,))
+        return t
+
     def boolop(self, op: str, vals: List[Term]) -> Term:
         """truth-value abstraction of and/or (the value itself is not tracked)"""
         out: List[Term] = []
@@ -1406,7 +1429,7 @@ class Evaluator:
         if key in self.assume and not store:
             return self.assume[key]
         if isinstance(base, Ite) and not store:
-            return Ite(base.test, self.attr(base.a, name, st, depth), self.attr(base.b, name, st, depth))
+            return mk_ite(base.test, self.attr(base.a, name, st, depth), self.attr(base.b, name, st, depth))
         if isinstance(base, ClassRef):
             ci = self.m.classes.get(base.name)
             if ci is not None:
@@ -1519,7 +1542,7 @@ class Evaluator:
 
     def apply(self, func: Term, args: Tuple[Term, ...], kwargs: Tuple[Tuple[str, Term], ...], st: _State, depth: int, star: bool = False) -> Term:
         if isinstance(func, Ite):
-            return Ite(func.test, self.apply(func.a, args, kwargs, st, depth, star), self.apply(func.b, args, kwargs, st, depth, star))
+            return mk_ite(func.test, self.apply(func.a, args, kwargs, st, depth, star), self.apply(func.b, args, kwargs, st, depth, star))
         if isinstance(func, ClassRef):
             ci = self.m.classes.get(func.name)
             if ci is not None and not star and (ci.is_attrs or any(c.is_attrs for c in ci.mro())):
@@ -1601,6 +1624,27 @@ class Evaluator:
             return TupleT(args[0].items, 'tuple')
         if n == 'tuple' and not args:
             return TupleT(())
+        if n in ('tuple', 'list') and len(args) == 1 and isinstance(args[0], Comp) and len(args[0].gens) == 1 and args[0].kind in ('gen', 'list'):
+            # a (filtered) comprehension over a short literal: one tuple per combination of filter outcomes
+            tgt, it, ifs = args[0].gens[0]
+            items = it.items if isinstance(it, TupleT) and it.kind in ('tuple', 'list') and not any(isinstance(x, Op) and x.op == '*' for x in it.items) else None
+            if items is not None and len(items) <= 3 and tgt.isidentifier():
+                each = Sym(f'each:{tgt}')
+
+                def build(i: int, acc: Tuple[Term, ...]) -> Term:
+                    if i == len(items):
+                        return TupleT(acc, n)
+                    x = items[i]
+                    elt = subst(args[0].elt, {each: x})
+                    conds = [self.refold(subst(c, {each: x})) for c in ifs]
+                    cond = self.boolop('and', conds) if conds else TRUE
+                    tv = self.truth(cond) if isinstance(cond, Const) else None
+                    if tv is True:
+                        return build(i + 1, acc + (elt,))
+                    if tv is False:
+                        return build(i + 1, acc)
+                    return mk_ite(cond, build(i + 1, acc + (elt,)), build(i + 1, acc))
+                return build(0, ())
         if n == 'len' and len(args) == 1 and isinstance(args[0], TupleT) and not any(isinstance(x, Op) and x.op == '*' for x in args[0].items):
             return Const(len(args[0].items))
         if n in ('any', 'all') and len(args) == 1 and isinstance(args[0], Comp) and len(args[0].gens) == 1:
